@@ -594,6 +594,9 @@ func (c *converter) syncIngressTCP(source *annotations.Source, ing *networking.I
 			tlsHosts = []string{hatypes.DefaultHost}
 		}
 		for _, tlsHost := range tlsHosts {
+			// the TLS config is removed along with the tcp service of the same hostname, which
+			// might be declared by another ingress: this one should be parsed again as well
+			c.tracker.TrackNames(source.Type, source.FullName(), convtypes.ResourceHATCPService, normalizeHostname(tlsHost, tcpServicePort))
 			if _, found := tcpPort.TLS[tlsHost]; !found {
 				tcpPort.TLS[tlsHost] = &hatypes.TCPServiceTLSConfig{
 					Hostname: tlsHost,
